@@ -38,6 +38,10 @@ def render_stmt(s, ind, ctx):
         return [p + "return x"]
     if t == "raise":
         return [p + "raise %s" % s["e"]]
+    if t == "loghexc":
+        return [p + "L.append(_hx())"]
+    if t == "reraise":
+        return [p + "raise"]
     if t == "seq":
         out = []
         for c in s["ss"]:
@@ -76,7 +80,8 @@ def render(pub):
     """pub: the record published by the spec {templates, subs, subbodies, ops}.
     Returns (module source [compiled / exec'd], plain-helper source [always plain Python])."""
     subs = pub["subs"]
-    mod = ["# cython: language_level=3", "PLAIN = {}", "", _AW % "AwC"]
+    mod = ["# cython: language_level=3", "import sys", "PLAIN = {}", "_HX = %r" % {(None if k == "None" else k): v for k, v in pub["ecodes"].items()},
+           "def _hx():", "    t = sys.exc_info()[0]", "    return _HX.get(None if t is None else t.__name__, 909)", "", _AW % "AwC"]
     plain = [_AW % "AwP", "PLAIN_DEFS = {'AwP': AwP}", ""]
     for sub in subs:
         body = pub["subbodies"][sub["b"] - 1]
